@@ -476,13 +476,244 @@ Section Model.
       unfold compile. revert M; induction l as [|c l IH]; intros M.
       - apply meq_sym. apply (mmul_id_l (o:=co)).
       - rewrite !compile_from_cons.
-        eapply meq_trans; [apply IH|].
-        eapply meq_trans; [|apply (mmul_compat (o:=co)); [apply meq_sym, IH|apply meq_refl]].
-        eapply meq_trans; [apply (mmul_compat (o:=co)); [apply meq_refl|apply cstep_spec]|].
-        eapply meq_trans; [|apply (mmul_compat (o:=co)); [apply (mmul_compat (o:=co)); [apply meq_refl|apply meq_sym, cstep_spec]|apply meq_refl]].
-        intros i j _ _. rewrite <- (mmul_assoc (o:=co)). 
-        apply (mmul_compat (o:=co)); try assumption; [|apply meq_refl].
-        apply (mmul_compat (o:=co)); [apply meq_refl|]. apply meq_sym. apply (mmul_id_r (o:=co)).
+        set (P := compile_from o E n (mid co) l) in *.
+        set (Cm := comp_mat o E c).
+        apply meq_trans with (mmul co n P (mmul co n Cm M)).
+        { eapply meq_trans; [apply IH|]. apply (mmul_compat (o:=co)); [apply meq_refl|apply cstep_spec]. }
+        apply meq_sym.
+        apply meq_trans with (mmul co n (mmul co n P Cm) M).
+        { apply (mmul_compat (o:=co)); [|apply meq_refl]. eapply meq_trans; [apply IH|].
+          apply (mmul_compat (o:=co)); [apply meq_refl|].
+          eapply meq_trans; [apply cstep_spec|]. apply (mmul_id_r (o:=co)). }
+        intros i j _ _. apply (mmul_assoc (o:=co)).
     Qed.
+  
+    (* ---- the unit cell of Reck.map compiles to the flipped bs_matrix ---- *)
+    Lemma strip_tab n A X Y : cmeq n X Y -> cmeq n (tab co n (mmul co n A X)) (mmul co n A Y).
+    Proof.
+      intros H. eapply meq_trans; [apply tab_spec|]. apply (mmul_compat (o:=co)); [apply meq_refl|exact H].
+    Qed.
+
+    Lemma unit_cell_model n j (pt pp : phase (K:=K)) r c s (e : C) hh :
+      S j < n -> c * c + s * s = 1 -> e_bsamp E r = (hh, hh) -> hh * hh + hh * hh = 1 ->
+      ph_amp pt = kmul co (c, s) (c, s) -> ph_amp pp = e ->
+      cmeq n (compile o E n [CBarrier [(n - j - 2)%nat; S (n - j - 2)%nat]; CPS (S (n - j - 2)%nat) pp;
+                             CBS (n - j - 2)%nat (S (n - j - 2)%nat) r; CPS (n - j - 2)%nat pt;
+                             CBS (n - j - 2)%nat (S (n - j - 2)%nat) r])
+             (flip n (bs_amp o j (S j) c s e)).
+    Proof.
+      intros Hj Hcs Hbs Hh Hpt Hpp. set (m := (n - j - 2)%nat).
+      unfold compile, compile_from. simpl fold_left.
+      eapply meq_trans.
+      { apply strip_tab, strip_tab, strip_tab. eapply meq_trans; [apply tab_spec|]. apply (mmul_id_r (o:=co)). }
+      unfold comp_mat. rewrite Hbs, Hpp. simpl fst; simpl snd.
+      eapply meq_trans.
+      { eapply (cell_product (o:=co)) with (c := cre o c) (s := cre o s) (g := gph o c s) (ii := ci o).
+        - apply cre_cs; assumption.
+        - apply ci_sq.
+        - unfold cre; simpl; unfold cmul, cadd; simpl. f_equal; [|ring]. rewrite <- Hh. ring.
+        - apply gph_def.
+        - unfold m. lia.
+        - rewrite Hpt, <- cis_sq. reflexivity. }
+      assert (E1 : S m = (n - 1 - j)%nat) by (unfold m; lia).
+      assert (E2 : m = (n - 1 - S j)%nat) by (unfold m; lia).
+      apply meq_sym. eapply meq_trans.
+      { unfold bs_amp. apply (flipm_embed2 (o:=co)); lia. }
+      rewrite <- E1, <- E2. intros a b _ _. apply (embed2_swap (o:=co)). lia.
+    Qed.
+  
+    (* ---- structure of the nulling loop ---- *)
+    Definition T_of (r : nrec (K:=K)) : cmat :=
+      bs_matrix o E (nr_j r) (S (nr_j r)) (nr_theta r) (nr_phi r).
+
+    Lemma decomp_loop_nulled n ans st k U :
+      snd (decomp_loop o E n ans st k U) =
+      nulled (o:=co) n U (map T_of (fst (decomp_loop o E n ans st k U))).
+    Proof.
+      revert k U; induction st as [|[i j] st IH]; intros k U; [reflexivity|].
+      simpl. rewrite IH. reflexivity.
+    Qed.
+
+    Lemma decomp_loop_ij n ans st k U :
+      map (fun r => (nr_i r, nr_j r)) (fst (decomp_loop o E n ans st k U)) = st.
+    Proof.
+      revert k U; induction st as [|[i j] st IH]; intros k U; [reflexivity|].
+      simpl. rewrite IH. reflexivity.
+    Qed.
+
+    Lemma reck_steps_bound n i j : In (i, j) (reck_steps n) -> (i + j + 2 <= n)%nat.
+    Proof.
+      unfold reck_steps. rewrite in_flat_map. intros [x [Hx H]].
+      apply in_map_iff in H as [y [Hy H]]. inversion Hy; subst.
+      apply in_seq in Hx, H. lia.
+    Qed.
+
+    Lemma decomp_loop_bound n ans k U :
+      Forall (fun r => (nr_i r + nr_j r + 2 <= n)%nat) (fst (decomp_loop o E n ans (reck_steps n) k U)).
+    Proof.
+      apply Forall_forall. intros r Hr. apply reck_steps_bound.
+      rewrite <- (decomp_loop_ij n ans (reck_steps n) k U).
+      apply (in_map (fun r => (nr_i r, nr_j r))) in Hr. exact Hr.
+    Qed.
+
+    Lemma T_of_unitary n r : (S (nr_j r) < n)%nat -> unitary co n (T_of r).
+    Proof. intros H. apply bs_matrix_unitary; lia. Qed.
+
+    Lemma reck_decomposition_ok n U ans endo dc :
+      reck_decomposition o E n U ans endo = Ok dc ->
+      dc = mkDecomp (fst (decomp_loop o E n ans (reck_steps n) 0%nat U)) (map endo (seq 0 n))
+                    (snd (decomp_loop o E n ans (reck_steps n) 0%nat U)) /\
+      check_unitary o E n U = true /\
+      check_null o E n (snd (decomp_loop o E n ans (reck_steps n) 0%nat U)) = true.
+    Proof.
+      unfold reck_decomposition. destruct (check_unitary o E n U); simpl; [|discriminate].
+      destruct (check_null o E n _); simpl; [|discriminate].
+      intros H. injection H as <-. auto.
+    Qed.
+
+    (* ---- Reck.map with an error model made of constants ---- *)
+    Definition dphase (p0 v : K) (amp : C) : phase (K:=K) :=
+      mkPhase (pmod o E (v + p0)) (kmul co amp (e_cis E p0)).
+    Definition dprec (p0 : K) (r : nrec (K:=K)) : prec (K:=K) :=
+      let cs := e_cis E (half o (nr_theta r)) in
+      mkPrec (nr_i r) (nr_j r)
+             (dphase p0 (nr_theta r) (kmul co (fst cs, snd cs) (fst cs, snd cs)))
+             (dphase p0 (nr_phi r) (e_cis E (nr_phi r))).
+    Definition dcell (n : nat) (r0 : K) (p : prec (K:=K)) : list (comp (K:=K)) :=
+      let m := (n - pr_j p - 2)%nat in
+      [CBarrier [m; S m]; CPS (S m) (pr_phi p); CBS m (S m) r0; CPS m (pr_theta p); CBS m (S m) r0].
+    Definition default_spec (n : nat) (r0 p0 : K) (dc : decomp (K:=K)) : list (comp (K:=K)) :=
+      flat_map (dcell n r0) (map (dprec p0) (dc_recs dc)) ++ [CBarrier (seq 0 n)]
+      ++ end_spec n (map (fun a => dphase p0 a (e_cis E a)) (dc_end dc)).
+
+    Lemma program_steps_const fuel recs p0 g :
+      program_steps o E fuel recs (mkDobj (DConst p0) g) = Ok (map (dprec p0) recs, mkDobj (DConst p0) g).
+    Proof.
+      induction recs as [|r recs IH]; [reflexivity|].
+      simpl. unfold program_phase. simpl. rewrite IH. reflexivity.
+    Qed.
+
+    Lemma program_ends_const fuel ends p0 g :
+      program_ends o E fuel ends (mkDobj (DConst p0) g) =
+      Ok (map (fun a => dphase p0 a (e_cis E a)) ends, mkDobj (DConst p0) g).
+    Proof.
+      induction ends as [|a ends IH]; [reflexivity|].
+      simpl. unfold program_phase. simpl. rewrite IH. reflexivity.
+    Qed.
+
+    Lemma build_cells_const fuel n ps r0 l0 g1 g2 :
+      in01 o r0 = true -> in01 o l0 = true -> kgtb o l0 0 = false ->
+      build_cells o E fuel n ps (mkDobj (DConst r0) g1) (mkDobj (DConst l0) g2) =
+      Ok (flat_map (dcell n r0) ps, (mkDobj (DConst r0) g1, mkDobj (DConst l0) g2)).
+    Proof.
+      intros Hr Hl Hl0. induction ps as [|p ps IH]; [reflexivity|].
+      simpl. rewrite Hr. simpl. unfold cell. rewrite Hr, Hl, Hl0. simpl. rewrite IH. simpl.
+      reflexivity.
+    Qed.
+
+    Lemma zip_heralds_ok hin hout :
+      Forall2 (fun x y : nat * Z => snd x = snd y) hin hout -> zip_heralds hin hout = Ok (hin, hout).
+    Proof.
+      induction 1 as [|[m1 a] [m2 b] hin hout Hab H IH]; [reflexivity|].
+      simpl in Hab. subst b. simpl. rewrite Z.eqb_refl. simpl. rewrite IH. reflexivity.
+    Qed.
+
+    Lemma set_random_seed_const em seed tok :
+      seed <> SeedBad ->
+      has_rng (d_dist (em_bs em)) = false -> has_rng (d_dist (em_loss em)) = false ->
+      has_rng (d_dist (em_phase em)) = false ->
+      set_random_seed E em seed tok = Ok em.
+    Proof.
+      intros Hs H1 H2 H3. unfold set_random_seed.
+      destruct seed; try contradiction; simpl; unfold reseed; rewrite H1, H2, H3; destruct em; reflexivity.
+    Qed.
+  
+    (* ---- the compiled cells are the flipped product T_K ... T_1 ---- *)
+    Lemma flip_mid n : cmeq n (flip n (mid co)) (mid co).
+    Proof.
+      intros i j Hi Hj. unfold flip, Mat.mid.
+      destruct (Nat.eqb_spec (n - 1 - i) (n - 1 - j)), (Nat.eqb_spec i j); try lia; reflexivity.
+    Qed.
+
+    Section Cells.
+      Variables (r0 hh p0 : K).
+      Hypothesis Hbs : e_bsamp E r0 = (hh, hh).
+      Hypothesis Hh : hh * hh + hh * hh = 1.
+      Hypothesis Hp0 : e_cis E p0 = k1 co.
+
+      Lemma compile_cells n recs :
+        Forall (fun r => (nr_i r + nr_j r + 2 <= n)%nat) recs ->
+        cmeq n (compile o E n (flat_map (dcell n r0) (map (dprec p0) recs)))
+               (flip n (prodT (o:=co) n (map T_of recs))).
+      Proof.
+        induction recs as [|r recs IH]; intros HF.
+        - simpl. apply meq_sym, flip_mid.
+        - inversion HF as [|? ? Hr HF']; subst. cbn [flat_map map prodT].
+          unfold compile. rewrite compile_from_app.
+          eapply meq_trans; [apply compile_from_mul|].
+          eapply meq_trans; [|apply meq_sym; apply (flipm_mmul (o:=co))].
+          apply (mmul_compat (o:=co)); [apply IH; assumption|].
+          unfold dcell, dprec, T_of, bs_matrix. cbn [pr_j pr_phi pr_theta].
+          apply (unit_cell_model n (nr_j r) _ _ r0 _ _ _ hh); try assumption.
+          + lia.
+          + apply Hcis.
+          + unfold dphase. cbn [ph_amp]. rewrite Hp0. apply cmul_1_r.
+          + unfold dphase. cbn [ph_amp]. rewrite Hp0. apply cmul_1_r.
+      Qed.
+    End Cells.
+
+    (* ---- a list of phase shifters scales the rows ---- *)
+    Fixpoint rowfac (l : list (nat * phase (K:=K))) (i : nat) : C :=
+      match l with
+      | [] => k1 co
+      | mp :: l' => kmul co (rowfac l' i) (if i =? fst mp then ph_amp (snd mp) else k1 co)
+      end.
+
+    Let Rc := cplx_ring o.
+    Add Ring Cr : Rc.
+
+    Lemma compile_ps_list n M l i j :
+      i < n -> j < n ->
+      compile_from o E n M (map (fun mp => CPS (fst mp) (snd mp)) l) i j = kmul co (rowfac l i) (M i j).
+    Proof.
+      intros Hi Hj. revert M; induction l as [|[m p] l IH]; intros M.
+      - simpl. ring.
+      - simpl map. rewrite compile_from_cons, IH. cbn [cstep comp_mat rowfac fst snd].
+        rewrite tab_spec by assumption. rewrite (mmul_phase_l (o:=co)) by assumption.
+        destruct (i =? m); ring.
+    Qed.
+
+    Lemma rowfac_seq n (g : nat -> phase (K:=K)) len : forall a i,
+      (a + len <= n)%nat -> i < n ->
+      rowfac (map (fun x => ((n - x - 1)%nat, g x)) (seq a len)) i =
+      if (a <=? n - 1 - i) && (n - 1 - i <? a + len) then ph_amp (g (n - 1 - i)%nat) else k1 co.
+    Proof.
+      induction len as [|len IH]; intros a i Hle Hi.
+      - simpl. destruct (a <=? n - 1 - i) eqn:E1, (n - 1 - i <? a + 0) eqn:E2; simpl; try reflexivity.
+        apply Nat.leb_le in E1. apply Nat.ltb_lt in E2. lia.
+      - simpl seq. simpl map. cbn [rowfac fst snd]. rewrite IH by lia.
+        destruct (Nat.eqb_spec i (n - a - 1)) as [Heq|Hne].
+        + replace (S a <=? n - 1 - i) with false by (symmetry; apply Nat.leb_gt; lia). simpl andb.
+          replace (a <=? n - 1 - i) with true by (symmetry; apply Nat.leb_le; lia).
+          replace (n - 1 - i <? a + S len) with true by (symmetry; apply Nat.ltb_lt; lia). simpl andb.
+          replace (n - 1 - i)%nat with a by lia. ring.
+        + destruct (a <=? n - 1 - i) eqn:E1, (S a <=? n - 1 - i) eqn:E2,
+            (n - 1 - i <? S a + len) eqn:E3, (n - 1 - i <? a + S len) eqn:E4; simpl andb; try ring;
+          repeat match goal with
+                 | H : (_ <=? _) = true |- _ => apply Nat.leb_le in H
+                 | H : (_ <=? _) = false |- _ => apply Nat.leb_gt in H
+                 | H : (_ <? _) = true |- _ => apply Nat.ltb_lt in H
+                 | H : (_ <? _) = false |- _ => apply Nat.ltb_ge in H
+                 end; lia.
+    Qed.
+
+    Lemma combine_seq_map {A} (g : nat -> A) a len :
+      combine (seq a len) (map g (seq a len)) = map (fun x => (x, g x)) (seq a len).
+    Proof. revert a; induction len as [|len IH]; intros a; simpl; [reflexivity|]. rewrite IH. reflexivity. Qed.
+
+    Lemma end_spec_seq n (g : nat -> phase (K:=K)) :
+      end_spec n (map g (seq 0 n)) =
+      map (fun mp => CPS (fst mp) (snd mp)) (map (fun x => ((n - x - 1)%nat, g x)) (seq 0 n)).
+    Proof. unfold end_spec. rewrite combine_seq_map, !map_map. reflexivity. Qed.
   End WithEnv.
 End Model.
